@@ -259,7 +259,7 @@ Definition invoke (s : st) (p : payload) : bres :=
                 BRaise e (dispose_per (add_log (add_notes s1 ns) (ERaise e)) pid)
             | PNext ns st' =>                     (* disp.disposable = schedule_relative(period, periodic, st') *)
                 let s2 := add_notes s1 ns in
-                let s3 := set_pers s2 (set_nth pid (PInfo (p_period pi) (p_fn pi) false (next_id s2)) (pers s2)) in
+                let s3 := set_pers s2 (set_nth pid (PInfo (p_period pi) (p_fn pi) (p_disposed pi) (next_id s2)) (pers s2)) in
                 BOk (enqueue s3 (clock s3 + p_period pi) (PPer pid st'))
             | PNextDisposed ns =>                 (* the action disposed disp; the new item is disposed at once *)
                 resched_disposed (add_notes s1 ns) pid (p_period pi)
